@@ -330,4 +330,24 @@ PROPS = {
             "yield points only delay real threads at points where the OS may preempt anyway; their hit counts are in the evidence",
         ],
     },
+    "C17": {
+        "bin": "m_lsp",
+        "args": ["--glas-bin", GLAS_PLAIN],
+        "build": BUILD_VH + BUILD_GLAS_PLAIN,
+        "level": "exploration",
+        "budget": {"quick": 25, "thorough": 900},
+        "timeout": {"quick": 1500, "thorough": 14400},
+        "death_is_violation": False,
+        "rule": ("project trees written to disk: root package `app` with 1-3 registry dependencies under build/packages/<name> (each listed directly by the root with probability 2/3, with random dependency edges among them: diamonds and "
+                 "transitive-only packages), optionally a `path = \"../pathdep\"` dependency, 1-3 modules per package from a pool of 8 names incl. nested directories (equal module names in different packages are common), a test/ module, "
+                 "and a free-standing file without gleam.toml; every package's entry module imports 5 module names sampled from the whole tree. A fresh real server per tree; entry modules and the free-standing file are opened root-first, "
+                 "dependency-first or free-standing-first. textDocument/definition is asked on every qualified use, prepareRename on every resolved one, hover and glas/syntaxTree in the free-standing file. "
+                 "evaluations = trees; distinct by FNV-1a of the tree description."),
+        "assumptions": [
+            "layout rule (independent model): module name = path below src|test without extension; `import m` from package P may resolve only to a file named m in P or in a package P lists under [dependencies] (registry or path); "
+            "if only a transitive or unrelated package has it the answer must be empty; several candidates: any; target URIs are compared after lexical normalisation (path dependencies come back as root/../pathdep/...); "
+            "symbols of build/packages/* must refuse prepareRename, symbols of the root and of path dependencies must accept it; the free-standing file must get hover and syntax-tree answers",
+            "the `gleam` executable is absent: dependency discovery is glas's own (assemble_graph over gleam.toml files)",
+        ],
+    },
 }
